@@ -1,9 +1,10 @@
 (* Check/Chk_C10.v -- correspondence checker for C10.
    Two kinds of cases:
    CFun  : one call of the real _apply_bounds on a vector of components (type, lower, upper, value);
-   CEval : one EnsembleEvaluator.calculate(compute_functions, compute_gradients) with injected scripted
-           samplers: validated magnitudes, order of the sampler calls, reported perturbed_variables and
-           the rows the evaluator callable received.
+   CEval : one EnsembleEvaluator (optionally behind a VariableScaler) with injected scripted samplers, asked for
+           gradients at one or more points in sequence (functions+gradient, functions then gradient from the
+           cache, gradient only): validated magnitudes (or rejection), and per call the order of the sampler
+           calls, the reported perturbed_variables and the rows the evaluator callable received.
    The model terms evaluated here are the ones the theorems of Props/C10.v are about. *)
 From Coq Require Import QArith ZArith List Bool Arith.
 From Ropt Require Import Base.Num Base.ListX Gen.Generated Model.Bounds Model.Mask.
@@ -19,9 +20,22 @@ Record fcase := {
   f_got : list Q                       (* implementation: _apply_bounds(ys, lbs, ubs, ts) *)
 }.
 
+(* one EnsembleEvaluator.calculate sequence at one point of the SAME evaluator object *)
+Record ecall := {
+  k_x : list Q;                        (* the point, user domain (calculate gets its optimizer-domain image) *)
+  k_mode : Z;                          (* 0: functions+gradient in one call; 1: functions, then gradient from the cache;
+                                          2: gradient only (nothing usable cached: evaluated like 0) *)
+  (* observations *)
+  k_order : list Z;                    (* sampler indices in the order generate_samples was called *)
+  k_res_x : list Q;                    (* reported GradientEvaluations.variables (optimizer domain) *)
+  k_pert : arr3;                       (* reported GradientEvaluations.perturbed_variables (optimizer domain) *)
+  k_rows : list (list Q)               (* every row received by the evaluator callable, in order (user domain) *)
+}.
+
 Record ecase := {
   e_exact : bool; e_S : Q;
-  e_x : list Q; e_lbs : list ereal; e_ubs : list ereal;
+  e_lbs : list ereal; e_ubs : list ereal;   (* user domain *)
+  e_scale : list Q; e_offset : list Q; (* VariableScaler: user = optimizer * scale + offset (1 / 0 when absent) *)
   e_bts : list Z;                      (* boundary types as configured (size 1 or V) *)
   e_pts : list Z;                      (* perturbation types as configured (size 1 or V) *)
   e_ms : list Q;                       (* perturbation magnitudes as configured (size 1 or V) *)
@@ -32,9 +46,7 @@ Record ecase := {
   (* observations *)
   e_rejected : bool;                   (* EnOptConfig validation raised *)
   e_mags : list Q;                     (* config.gradient.perturbation_magnitudes after validation *)
-  e_order : list Z;                    (* sampler indices in the order generate_samples was called *)
-  e_pert : arr3;                       (* reported GradientEvaluations.perturbed_variables *)
-  e_rows : list (list Q)               (* every row received by the evaluator callable, in order *)
+  e_calls : list ecall
 }.
 
 Inductive case := CFun (c : fcase) | CEval (c : ecase).
@@ -65,28 +77,71 @@ Definition check_fun (c : fcase) : bool :=
 
 Definition rows_eqb (a b : list (list Q)) : bool := list_eqb (list_eqb Qeqb) a b.
 
+(* rows the evaluator callable must receive for one evaluation plan of the cache model (Model/Mask.evaluate) *)
+Definition plan_rows (R : nat) (xu : list Q) (pert_u : list (list Q)) (pl : eval_plan) : list (list Q) :=
+  match pl with
+  | EvFunctions vs => concat (map (fun _ => repeat xu R) vs)
+  | EvGradCached _ => pert_u
+  | EvBoth _ => repeat xu R ++ pert_u
+  end.
+
+(* one call sequence at one point; threads the evaluator's function-value cache *)
+Definition check_call (c : ecase) (bts : list Z) (lbs' ubs' : list ereal) (mags : list Q) (order : list Z)
+           (samples : arr3) (cache : option (list Q)) (k : ecall) : bool * option (list Q) :=
+  let ex := e_exact c in let S := e_S c in
+  let x' := vec_to_opt (e_scale c) (e_offset c) (k_x k) in
+  let pv := perturb bts lbs' ubs' x' mags samples in
+  let pert_u := map (vec_from_opt (e_scale c) (e_offset c)) (concat (k_pert k)) in
+  let '(rows, cache') :=
+    if Z.eqb (k_mode k) 1
+    then let '(p1, c1) := evaluate cache true false [x'] in
+         let '(p2, c2) := evaluate c1 false true [x'] in
+         (plan_rows (e_R c) (k_x k) pert_u p1 ++ plan_rows (e_R c) (k_x k) pert_u p2, c2)
+    else let '(p1, c1) := evaluate cache (Z.eqb (k_mode k) 0) true [x'] in
+         (plan_rows (e_R c) (k_x k) pert_u p1, c1) in
+  (Nat.eqb (length (k_x k)) (length (e_lbs c)) &&
+   (* the point is inside the bounds (quantifier of the property) *)
+   forallb2 (fun x lu => inb (fst lu) (snd lu) x) (k_x k) (combine (e_lbs c) (e_ubs c)) &&
+   (* every sampler that owns a variable ran once, in the order of first appearance *)
+   list_eqb Z.eqb (k_order k) order &&
+   (* the gradient result is reported at the point; reported perturbed variables = model *)
+   forallb2 (qcmp ex S) (k_res_x k) x' && Nat.eqb (length (k_res_x k)) (length x') &&
+   forallb2 (forallb2 (forallb2 (qcmp ex S))) (k_pert k) pv &&
+   Nat.eqb (length (k_pert k)) (e_R c) &&
+   (* the evaluator received R copies of the point whenever function values were (re)computed, then the reported
+      perturbed vectors -- in the user domain, bit for bit (no scaler, or power-of-two scales with dyadic data) *)
+   rows_eqb (k_rows k) rows &&
+   (* the property's clauses directly on the observation (optimizer domain = user domain up to the positive map) *)
+   forallb2 (forallb2 (fun srow grow =>
+       comps_ok ex S bts lbs' ubs' (pre_bounds x' mags srow) grow)) samples (k_pert k),
+   cache').
+
+Fixpoint check_calls (c : ecase) (bts : list Z) (lbs' ubs' : list ereal) (mags : list Q) (order : list Z)
+         (samples : arr3) (cache : option (list Q)) (ks : list ecall) : bool :=
+  match ks with
+  | [] => true
+  | k :: t =>
+      let '(ok, cache') := check_call c bts lbs' ubs' mags order samples cache k in
+      ok && check_calls c bts lbs' ubs' mags order samples cache' t
+  end.
+
 Definition check_eval (c : ecase) : bool :=
   let ex := e_exact c in let S := e_S c in
-  match magnitudes_of (e_pts c) (e_lbs c) (e_ubs c) (e_ms c), broadcast (length (e_x c)) (e_bts c) with
-  | MagInfinite, _ => e_rejected c
-  | MagShape, _ | _, None => false
+  let V := length (e_lbs c) in
+  Nat.eqb (length (e_ubs c)) V && Nat.eqb (length (e_scale c)) V && Nat.eqb (length (e_offset c)) V &&
+  forallb (fun s => Qltb 0 s) (e_scale c) &&
+  match magnitudes_scaled (e_pts c) (e_lbs c) (e_ubs c) (e_scale c) (e_offset c) (e_ms c), broadcast V (e_bts c) with
+  | MagInfinite, _ | MagShape, _ | _, None => e_rejected c      (* ValueError from fix_perturbations *)
   | MagOk mags, Some bts =>
+      let lbs' := bounds_to_opt (e_scale c) (e_offset c) (e_lbs c) in
+      let ubs' := bounds_to_opt (e_scale c) (e_offset c) (e_ubs c) in
       let order := sampler_order (e_gs c) in
-      let ss := map (fun k => zero3 (sampler_mask k (e_gs c) (e_mask c)) (nth (Z.to_nat k) (e_scripts c) [])) order in
-      let samples := sum_samples ss in
-      let pv := perturb bts (e_lbs c) (e_ubs c) (e_x c) mags samples in
+      let samples := run_samplers (e_gs c) (e_mask c) (e_scripts c) in
       negb (e_rejected c) &&
-      forallb2 (qcmp ex S) (e_mags c) mags &&
+      forallb2 (qcmp ex S) (e_mags c) mags && Nat.eqb (length (e_mags c)) V &&
       negb (Nat.eqb (length order) 0) &&
-      list_eqb Z.eqb (e_order c) order &&
-      (* reported perturbed variables = model *)
-      forallb2 (forallb2 (forallb2 (qcmp ex S))) (e_pert c) pv &&
-      Nat.eqb (length (e_pert c)) (e_R c) &&
-      (* the evaluator received R copies of x, then the reported perturbed vectors, bit for bit *)
-      rows_eqb (e_rows c) (repeat (e_x c) (e_R c) ++ concat (e_pert c)) &&
-      (* the property's clauses directly on the observation *)
-      forallb2 (forallb2 (fun srow grow =>
-          comps_ok ex S bts (e_lbs c) (e_ubs c) (pre_bounds (e_x c) mags srow) grow)) samples (e_pert c)
+      negb (Nat.eqb (length (e_calls c)) 0) &&
+      check_calls c bts lbs' ubs' mags order samples None (e_calls c)
   end.
 
 Definition check_case (c : case) : bool :=
